@@ -4,6 +4,8 @@ package main
 // generated tree on a generated stream; the per-node observations are printed for the Lean Flow model and trace monitor.
 // input: "tree <seed> <nroots> N <kind> <workers> <buf> <discard> <disabled> <wP> <wT> <wF> <wE> <maxFan> <amode> <latUs> <nc> <hh> ... ;
 //         stream <n> ; opts stop=<k|-> gm=<GOMAXPROCS> [sig=1] [gate=<idx>] [shutms=<idx>:<ms>]"
+// cfgfile=1: the pipeline is given as a YAML file (defaults left out, no shutdowntimeout) through WithConfigFile
+// to=<sec>: shutdown timeout of the pipeline (default 5)
 // reinit=k: metrics.Init is called with another prefix (a second executor is built in the process) when k events have been emitted
 // srcfail=k: the source's Start returns an error after k events; the restarted source (10 s later) emits the rest
 // shutms=i:ms: node i's Shutdown takes ms before it flushes what it holds back and returns
@@ -115,6 +117,8 @@ func genFlow(prop string, r *rng, n int, tier string, emit func(string)) {
 	if prop == "C02" || prop == "C04" {
 		// a non-discarding error handler that is stalled for 1.3 s while its node keeps failing: the node waits, no report is lost
 		emit("tree 31 1 N sync 1 1 0 0 0 0 0 100 1 0 0 0 1 N hsync 1 1 0 0 100 0 0 0 1 0 0 0 0 ; stream 8 ; opts stop=- gm=4 gate=1 gatems=1300")
+		// ... and a non-discarding child stalled for 5.6 s: backpressure has no time limit
+		emit("tree 71 1 N sync 1 1 0 0 100 0 0 0 1 0 0 1 0 N sync 1 1 0 0 100 0 0 0 1 0 0 0 0 ; stream 5 ; opts stop=- gm=4 gate=1 gatems=5600 to=9")
 	}
 	if prop == "C01" || prop == "C04" {
 		// an async single-worker node whose completions arrive concurrently, a slow first child and a fast second one
@@ -131,10 +135,19 @@ func genFlow(prop string, r *rng, n int, tier string, emit func(string)) {
 		emit("tree 19 1 N sync 2 1 0 0 20 0 0 80 1 0 0 0 1 N hsync 1 1 1 0 100 0 0 0 1 0 300 0 0 ; stream 40 ; opts stop=- gm=4")
 		emit("tree 23 1 N sync 4 2 0 0 100 0 0 0 1 0 0 2 0 N sync 1 1 1 0 100 0 0 0 1 0 0 0 0 N sync 1 2 0 0 100 0 0 0 1 0 0 0 0 ; stream 50 ; opts stop=- gm=4 gate=1")
 	}
+	if prop == "C01" || prop == "C02" || prop == "C03" || prop == "C05" {
+		// from a configuration file with the defaults left out: a handler on a childless node, a multi-worker parent with a
+		// child that names no worker count, no shutdowntimeout (a slow leaf still has events queued when the source ends)
+		emit("tree 67 1 N sync 4 2 0 0 60 0 10 30 1 0 0 2 1 N sync 1 1 0 0 70 0 0 30 1 0 300 0 1 N hsync 1 1 0 0 100 0 0 0 1 0 0 0 0 N async 1 1 0 0 100 0 0 0 1 1 2000 0 0 N hsync 1 1 0 0 100 0 0 0 1 0 0 0 0 ; stream 60 ; opts stop=- gm=4 cfgfile=1")
+	}
 	if prop == "C01" {
 		// the source fails (Start returns an error) while events it has emitted are still on their way to a slow root; the
 		// supervisor restarts it 10 s later and the fresh source emits the rest: every event reaches the root
 		emit("tree 53 1 N sync 1 1 0 0 100 0 0 0 1 0 10000 1 0 N sync 1 1 0 0 100 0 0 0 1 0 0 0 0 ; stream 24 ; opts stop=- gm=4 srcfail=20")
+	}
+	if prop == "C03" || prop == "C05" {
+		// the same with a Shutdown of 5.6 s under a 9 s timeout
+		emit("tree 73 1 N async 1 2 0 0 70 0 0 30 1 2 0 1 1 N sync 1 1 0 0 100 0 0 0 1 0 0 0 0 N hsync 1 1 0 0 100 0 0 0 1 0 0 0 0 ; stream 6 ; opts stop=- gm=4 shutms=0:5600 to=9")
 	}
 	if prop == "C03" {
 		// an async node that holds its events back and hands them on from a Shutdown taking 3.2 s of the 5 s timeout: its child
@@ -192,6 +205,9 @@ func genFlow(prop string, r *rng, n int, tier string, emit func(string)) {
 				gate = fmt.Sprintf(" gate=%d", cands[r.intn(len(cands))])
 				stop = "-"
 			}
+		}
+		if gate == "" && r.chance(12) {
+			gate += " cfgfile=1"
 		}
 		if prop == "C16" && r.chance(15) && ns > 2 {
 			gate += fmt.Sprintf(" reinit=%d", r.intn(ns-1)+1)
@@ -294,6 +310,8 @@ func execFlow(input string) string {
 	shutIdx, shutMs := -1, 0
 	srcFail := -1
 	reinitAt := -1
+	cfgFile := false
+	timeoutSec := 5
 	for _, seg := range segs[1:] {
 		f := strings.Fields(seg)
 		if len(f) == 2 && f[0] == "stream" {
@@ -312,6 +330,12 @@ func execFlow(input string) string {
 				}
 				if o == "sig=1" {
 					bySignal = true
+				}
+				if o == "cfgfile=1" {
+					cfgFile = true
+				}
+				if strings.HasPrefix(o, "to=") {
+					timeoutSec, _ = strconv.Atoi(strings.TrimPrefix(o, "to="))
 				}
 				if strings.HasPrefix(o, "reinit=") {
 					reinitAt, _ = strconv.Atoi(strings.TrimPrefix(o, "reinit="))
@@ -365,8 +389,20 @@ func execFlow(input string) string {
 	setScenario(ft.specs)
 	defer clearScenario(ft.specs)
 	cfg := config.Config{ApplicationName: "verif", MetricsPrefix: "verif", Source: &node.SourceConfig{Name: "vsource", ID: fmt.Sprintf("r%d_src", run)},
-		Nodes: ft.roots, ShutdownTimeOut: 5}
-	ex, err := executor.New(executor.WithConfig(cfg))
+		Nodes: ft.roots, ShutdownTimeOut: timeoutSec}
+	var ex *executor.Executor
+	var err error
+	if cfgFile {
+		// the same pipeline from a configuration file as an application would write it: defaults left out, no shutdowntimeout
+		path, werr := writeConfigFile("f", run, yamlForConfig(cfg, true, 0))
+		if werr != nil {
+			return "harness-error " + werr.Error()
+		}
+		ex, err = executor.New(executor.WithConfigFile(path))
+		os.Remove(path)
+	} else {
+		ex, err = executor.New(executor.WithConfig(cfg))
+	}
 	if err != nil {
 		return "harness-error " + err.Error()
 	}
